@@ -31,6 +31,7 @@ type simViolation struct {
 	Key    string
 	Desc   string
 	Clock  int
+	Full   []simEvent `json:",omitempty"` // complete event history when it extends the explored one (continuations)
 }
 
 type nodeSnap struct {
@@ -64,6 +65,7 @@ type ledger struct {
 
 	roundDone map[[3]uint64]uint64 // (leader, term, node) -> LastIndex of the last completed round
 
+	newsAt int // clock of the last transition in which a leader emerged or an index was committed
 	ghost int // node whose outputs of the current transition are discarded (-1: none)
 
 	prev []nodeSnap
@@ -285,6 +287,7 @@ func (l *ledger) claimLeader(term, id uint64, what string) {
 	}
 	l.leaderOf[term] = id
 	l.stats.leaders++
+	l.newsAt = l.w.clock
 }
 
 func (l *ledger) onFSMUpdate(n *simNode, id string, pos int) {}
@@ -361,6 +364,21 @@ func (l *ledger) afterDeliver(dst *simNode, c *simConn, rp *rpc, dup bool) {
 			}
 			if r.term != pre.term {
 				l.violate("stability", "term-raised-while-leader-known", fmt.Sprintf("node %d following leader %d raised its term %d->%d on a vote request of %d (no transfer flag)", dst.id, pre.leader, pre.term, r.term, req.src))
+			}
+		}
+	case *installSnapReq:
+		// C09/C03: after a node acknowledged a snapshot, whatever it retains at or below the
+		// snapshot's index is what was committed there (else it will apply something else)
+		if rp.resp.getResult() == success && rp.readErr == nil {
+			for i := r.log.PrevIndex() + 1; i <= r.lastLogIndex && i <= req.lastIndex; i++ {
+				c, ok := l.committed[i]
+				if !ok {
+					continue
+				}
+				if e, ok := l.entryAt(dst, i); ok && e.term != c.Term {
+					l.violate("snapshot", "snapshot-acknowledged-over-conflicting-log", fmt.Sprintf("node %d acknowledged InstallSnapshot(index %d, term %d) but keeps entry %d of term %d where term %d was committed", dst.id, req.lastIndex, req.lastTerm, i, e.term, c.Term))
+					break
+				}
 			}
 		}
 	case *timeoutNowReq:
@@ -606,6 +624,7 @@ func (l *ledger) scanNode(n *simNode) {
 		} else {
 			l.committed[i] = rec
 			l.stats.commits++
+			l.newsAt = l.w.clock
 			if e.typ == entryConfig {
 				l.configs[i] = rec.Hash
 				l.stats.configChanges++
